@@ -296,8 +296,22 @@ def print_assumptions(pid, names):
     return res, out
 
 
-def audit(pid):
-    """returns (obligations, discharged, problems[])"""
+def audit(pid, files=None):
+    """returns (obligations, discharged, problems[], log); `files` = the Props files of this property
+    (default: Props/<pid>.v alone)"""
+    if not files or list(files) == [pid]:
+        return _audit_one(pid)
+    tot = [0, 0, [], ""]
+    for f in files:
+        n, d, pr, lg = _audit_one(f)
+        tot[0] += n
+        tot[1] += d
+        tot[2] += pr
+        tot[3] += lg
+    return tuple(tot)
+
+
+def _audit_one(pid):
     problems = []
     if not os.path.exists(os.path.join(COQ, "Props", pid + ".v")):
         return 0, 0, ["Props/%s.v does not exist (no theorem is claimed for this property yet)" % pid], ""
